@@ -163,10 +163,6 @@ var pureStd = map[string]bool{"strings": true, "strconv": true, "math": true, "p
 
 func (e *Exec) callFunc(fn *types.Func, recvExpr ast.Expr, sel *types.Selection, call *ast.CallExpr, c *Ctx, want int, inst []types.Type) []Term {
 	name := fullName(fn)
-	pkgPath := ""
-	if fn.Pkg() != nil {
-		pkgPath = fn.Pkg().Path()
-	}
 	// logging / metrics: dropped by the extraction
 	if e.isDropped(fn, recvExpr, c) {
 		e.dropped[shortName(name)] = true
@@ -180,23 +176,64 @@ func (e *Exec) callFunc(fn *types.Func, recvExpr ast.Expr, sel *types.Selection,
 	var recv *Term
 	if recvExpr != nil {
 		rv := e.eval(recvExpr, c)
-		// implicit address-of / deref to match the method's receiver
 		recv = &rv
 	}
 	args := e.evalArgs(call.Args, c)
 	args = e.packVariadic(sig, args, call, c)
+	return e.dispatch(fn, recv, args, call, c, want, inst, sel)
+}
+
+// dispatch: contract -> pure -> inline -> pure-std -> havoc, after devirtualisation.
+func (e *Exec) dispatch(fn *types.Func, recv *Term, args []Term, call *ast.CallExpr, c *Ctx, want int, inst []types.Type, sel *types.Selection) []Term {
+	name := fullName(fn)
+	pkgPath := ""
+	if fn.Pkg() != nil {
+		pkgPath = fn.Pkg().Path()
+	}
+	sig := fn.Type().(*types.Signature)
 	// interface method: devirtualise if declared
 	if recv != nil && recv.T.K == KAny {
 		if conc := e.devirtTarget(fn, sig); conc != nil {
+			e.note("interface method %s devirtualised to %s (closed world: declared by a devirt clause)", shortName(name), shortName(fullName(conc)))
+			// type arguments of the interface instantiate the implementation (SharedStateI[int64] => *memoryState[int64])
+			var targs []types.Type
+			if in, ok := types.Unalias(sig.Recv().Type()).(*types.Named); ok && in.TypeArgs() != nil {
+				for i := 0; i < in.TypeArgs().Len(); i++ {
+					targs = append(targs, resolve(in.TypeArgs().At(i), c.fr.subst))
+				}
+			}
+			if len(targs) == 0 && recv.T.G != nil {
+				if in, ok := types.Unalias(recv.T.G).(*types.Named); ok && in.TypeArgs() != nil {
+					for i := 0; i < in.TypeArgs().Len(); i++ {
+						targs = append(targs, resolve(in.TypeArgs().At(i), c.fr.subst))
+					}
+				}
+			}
 			fn = conc
 			name = fullName(fn)
 			sig = fn.Type().(*types.Signature)
-			// the receiver is the boxed pointer
-			rt := e.prog.TypeOf(sig.Recv().Type(), nil)
-			val, _ := e.fromAny(*recv, rt, c.st)
-			val = Term{fmt.Sprintf("(a_val %s)", recv.S), rt}
-			e.note("interface %s devirtualised to %s (closed world: the only implementation constructed in this build)", shortName(fullName(fn)), shortName(name))
+			rgt := sig.Recv().Type()
+			if len(targs) > 0 {
+				base := rgt
+				isPtr := false
+				if pt, ok := base.(*types.Pointer); ok {
+					base, isPtr = pt.Elem(), true
+				}
+				if nn, ok := types.Unalias(base).(*types.Named); ok && nn.Origin().TypeParams().Len() == len(targs) {
+					if it, err := types.Instantiate(nil, nn.Origin(), targs, false); err == nil {
+						rgt = it
+						if isPtr {
+							rgt = types.NewPointer(it)
+						}
+					}
+				}
+			}
+			rt := e.prog.TypeOf(rgt, nil)
+			// the interface value is assumed to hold this implementation (recorded as an assumption)
+			e.externs["devirt: values of "+shortName(name)+"'s interface are assumed to be "+rt.String()] = true
+			val := Term{fmt.Sprintf("(a_val %s)", recv.S), rt}
 			recv = &val
+			sel = nil
 		}
 	}
 	if ct := e.prog.contractFor(fn); ct != nil && !(ct.Inline && ct.Kind == "func") {
@@ -355,6 +392,16 @@ func (e *Exec) callFuncValue(v *types.Var, selExpr *ast.SelectorExpr, name strin
 		if fl := e.findClosure(c.fr, e.keyOf(v)); fl != nil {
 			return e.inlineLit(fl, args, c, want)
 		}
+		cur := e.get(c.st, e.keyOf(v), &Type{K: KFunc})
+		if mv, ok := e.methodVals[cur.S]; ok {
+			recv := mv.recv
+			msig := mv.fn.Type().(*types.Signature)
+			args = e.packVariadic(msig, args, call, c)
+			return e.dispatch(mv.fn, &recv, args, call, c, want, nil, nil)
+		}
+		if fl, ok := e.litVals[cur.S]; ok {
+			return e.inlineLit(fl, args, c, want)
+		}
 		if ct, ok := e.prog.contracts[e.fnShort()+"."+name]; ok && ct.Kind == "field" {
 			sig := v.Type().Underlying().(*types.Signature)
 			return e.applyContract(ct, nil, sig, nil, args, call, c)
@@ -467,6 +514,7 @@ func (e *Exec) builtin(name string, call *ast.CallExpr, c *Ctx, want int) []Term
 		m := e.eval(call.Args[0], c)
 		k := e.eval(call.Args[1], c)
 		if m.T.K == KMap {
+			e.guardWriteThrough(call.Args[0], c)
 			e.mapDelete(c, m, k)
 			return nil
 		}
@@ -787,6 +835,34 @@ func (e *Exec) contractScope(ct *Contract, fn *types.Func, sig *types.Signature,
 	if pk != nil {
 		fr.info = pk.TypesInfo
 	}
+	// locals of the callee that its clauses mention are existential witnesses at a call site: fresh constants
+	if fn != nil && ct.Kind == "func" {
+		if fi := e.prog.funcs[fullName(fn)]; fi != nil {
+			mentioned := map[string]bool{}
+			for _, cl := range append(append([]Clause{}, ct.Ensures...), ct.Requires...) {
+				ast.Inspect(cl.Expr, func(n ast.Node) bool {
+					if id, ok := n.(*ast.Ident); ok {
+						mentioned[id.Name] = true
+					}
+					return true
+				})
+			}
+			ast.Inspect(fi.Decl.Body, func(n ast.Node) bool {
+				id, ok := n.(*ast.Ident)
+				if !ok || !mentioned[id.Name] {
+					return true
+				}
+				if _, done := bound[id.Name]; done {
+					return true
+				}
+				if v, ok := fi.Pkg.TypesInfo.Defs[id].(*types.Var); ok && !v.IsField() {
+					t := e.prog.TypeOf(v.Type(), nil)
+					bound[id.Name] = Term{e.vc.FreshConst("callee_"+id.Name, e.Sort(t)), t}
+				}
+				return true
+			})
+		}
+	}
 	return bound, fr
 }
 
@@ -941,6 +1017,14 @@ func (e *Exec) havocTarget(m ast.Expr, st *State, fr *Frame, bound map[string]Te
 				return
 			case "now":
 				e.advanceTime(st, "0")
+				return
+			case "smapof":
+				so, fld := e.syncMapOwner(x.Args[0], sc)
+				d, va := e.syncMapArrs(st, so, fld)
+				nd := e.vc.FreshConst("hv_smdom", "(Array Any Bool)")
+				nv := e.vc.FreshConst("hv_smval", "(Array Any Any)")
+				e.set(st, "SM!"+fld+"!dom", Term{fmt.Sprintf("(store %s %s %s)", d.S, so.S, nd), d.T})
+				e.set(st, "SM!"+fld+"!val", Term{fmt.Sprintf("(store %s %s %s)", va.S, so.S, nv), va.T})
 				return
 			case "allof":
 				// allof(T.f): the whole field array of struct T (spec type)
@@ -1135,9 +1219,22 @@ func (e *Exec) specCall(call *ast.CallExpr, c *Ctx) Term {
 			}
 			if gf.Body != nil {
 				// macro expansion
-				c2 := &Ctx{st: c.st, old: c.old, fr: c.fr, spec: true, bound: map[string]Term{}}
-				for k, v := range c.bound {
-					c2.bound[k] = v
+				gfr := c.fr
+				if gpk := e.prog.pkgs[gf.PkgPath]; gpk != nil && (c.fr.pkg == nil || c.fr.pkg.PkgPath != gf.PkgPath) {
+					gfr = &Frame{pkg: gpk, info: gpk.TypesInfo, names: map[string]string{}, ntypes: map[string]*Type{}, closures: map[string]*ast.FuncLit{}}
+				}
+				c2 := &Ctx{st: c.st, old: c.old, fr: gfr, spec: true, bound: map[string]Term{}}
+				if gfr == c.fr {
+					for k, v := range c.bound {
+						c2.bound[k] = v
+					}
+				} else {
+					// only quantified variables stay visible inside a macro of another package
+					for k, v := range c.bound {
+						if hasBound(v.S) {
+							c2.bound[k] = v
+						}
+					}
 				}
 				for i, p := range gf.Params {
 					if i < len(args) {
